@@ -1,4 +1,5 @@
 from rules import shared as S
+from rules import late as L
 
 DOC = {'explanation': 'C12 structural clauses (see DESIGN.md section 5)', 'decided': [], 'not_decided': []}
 
@@ -20,3 +21,5 @@ def rules(ctx):
     S.own_growth_rules(ctx)
     S.round5_rules(ctx)
     S.round6_rules(ctx)
+    L.verify_cycle_guard_rules(ctx)
+    L.depth_bound_rules(ctx)
